@@ -21,7 +21,7 @@ From Coq Require Import ZArith List Bool Sorted Permutation.
 From Geo Require Import Base.GoPrim Gen.CellID Model.CellUnion Model.CellIndex Model.Intersect.
 From Geo Require Import Proofs.C11_Bits Proofs.C11_Cells Proofs.C11_Normalize Proofs.C11_Unique Proofs.C11_Search
   Proofs.C11_SetOps Proofs.C11_Range Proofs.C11_Checks Proofs.C11_SetOps2 Proofs.C11_Denorm Proofs.C11_Examples
-  Proofs.C11_Index Proofs.C11_Index2 Proofs.C11_Index3 Proofs.C11_Index4 Proofs.C11_Find.
+  Proofs.C11_Index Proofs.C11_Index2 Proofs.C11_Index3 Proofs.C11_Index4 Proofs.C11_IterBack Proofs.C11_Find.
 Import ListNotations.
 Local Open Scope Z_scope.
 
@@ -234,6 +234,57 @@ Theorem cell_index_sweep_exactly_once_and_backward_move_reports_everything :
   fst (ci_visit tree rs st j) = pairs_of tree s).
 Proof. split; [exact index_sweep_exactly_once|exact index_backward_reports_all]. Qed.
 Print Assumptions cell_index_sweep_exactly_once_and_backward_move_reports_everything.
+
+
+(** CellIndexRangeIterator.Finish / Advance / Prev, for ANY range list [rs] with at least one entry
+    (the last entry is the sentinel range; positions 0..n-1; Done pos <-> n-1 <= pos).
+    Finish is the least Done position; Advance(k) moves by k exactly when the target is not Done
+    (and is then k plain Next steps), otherwise it leaves the position alone and returns false. *)
+Theorem cell_index_advance_finish_spec : forall rs, 1 <= Z.of_nat (length rs) ->
+  let n := Z.of_nat (length rs) in
+  (ri_Done rs (ri_Finish rs) = true /\ 0 <= ri_Finish rs < n /\
+   (forall p, ri_Done rs p = true -> ri_Finish rs <= p) /\ (forall p, ri_Finish rs <= p -> ri_Done rs p = true)) /\
+  forall pos k,
+   ((pos + k < n - 1 -> ri_Advance rs pos k = (pos + k, true)) /\
+    (n - 1 <= pos + k -> ri_Advance rs pos k = (pos, false)) /\
+    (snd (ri_Advance rs pos k) = true <-> pos + k < n - 1) /\
+    (0 <= pos -> 0 <= k -> pos + k < n - 1 ->
+       0 <= fst (ri_Advance rs pos k) < n - 1 /\ ri_Done rs (fst (ri_Advance rs pos k)) = false)) /\
+   (0 <= k -> pos + k < n - 1 -> ri_Advance rs pos k = (Nat.iter (Z.to_nat k) (ri_Next rs false) pos, true)).
+Proof. intros rs H. split; [exact (ri_Finish_done rs H)|]. intros pos k. split; [exact (ri_Advance_spec rs pos k)|exact (ri_Advance_iter_Next rs pos k)]. Qed.
+Print Assumptions cell_index_advance_finish_spec.
+
+(** Prev inverts Next: on the plain iterator everywhere; on the non-empty iterator from every
+    non-empty, non-Done position; and Next inverts a successful non-empty Prev taken from a position
+    where the non-empty iterator can stand (non-empty or Done). *)
+Theorem cell_index_prev_inverts_next : forall rs, 1 <= Z.of_nat (length rs) ->
+  let n := Z.of_nat (length rs) in
+  (forall pos,
+    (0 < pos -> ri_Prev rs false pos = (pos - 1, true) /\ ri_Next rs false (pos - 1) = pos) /\
+    (pos = 0 -> ri_Prev rs false pos = (0, false)) /\
+    (0 <= pos -> ri_Prev rs false (ri_Next rs false pos) = (pos, true))) /\
+  (forall p, 0 <= p < n - 1 -> ri_IsEmpty rs p = false ->
+    p < ri_Next rs true p <= n - 1 /\ ri_Prev rs true (ri_Next rs true p) = (p, true)) /\
+  (forall pos, (0 <= pos <= n - 1 /\ (pos < n - 1 -> ri_IsEmpty rs pos = false)) ->
+    snd (ri_Prev rs true pos) = true -> ri_Next rs true (fst (ri_Prev rs true pos)) = pos).
+Proof. intros rs H. split; [exact (ri_Prev_plain rs)|]. split; [exact (ri_Prev_Next_nonempty rs)|exact (ri_Next_Prev_nonempty rs H)]. Qed.
+Print Assumptions cell_index_prev_inverts_next.
+
+(** the non-empty Prev from any position in range: it returns true exactly when some earlier range is
+    non-empty, and then stands on the CLOSEST one; otherwise it returns false and leaves the iterator
+    where Begin puts it, which is the starting position if that was non-empty or Done. *)
+Theorem cell_index_nonempty_prev_is_closest_nonempty_predecessor : forall rs, 1 <= Z.of_nat (length rs) ->
+  let n := Z.of_nat (length rs) in
+  forall pos, 0 <= pos <= n - 1 ->
+  let r := ri_Prev rs true pos in
+  (snd r = true ->
+     0 <= fst r < pos /\ ri_IsEmpty rs (fst r) = false /\ forall j, fst r < j < pos -> ri_IsEmpty rs j = true) /\
+  (snd r = false ->
+     (forall j, 0 <= j < pos -> ri_IsEmpty rs j = true) /\ fst r = ri_Begin rs true /\
+     ((0 <= pos <= n - 1 /\ (pos < n - 1 -> ri_IsEmpty rs pos = false)) -> fst r = pos)) /\
+  (snd r = true <-> exists q, 0 <= q < pos /\ ri_IsEmpty rs q = false).
+Proof. exact ri_Prev_nonempty_spec. Qed.
+Print Assumptions cell_index_nonempty_prev_is_closest_nonempty_predecessor.
 
 
 (** * s2intersect.Find (model Model/Intersect.v) -----------------------------------
